@@ -1,13 +1,13 @@
 (* C12 — containment, overlap and emptiness answers about version constraints are never wrong. *)
 From Coq Require Import List Bool NArith String.
 From PC Require Import Base.Cmp Base.Result Model.Pep440 Spec.Pep440Spec Model.VConstraint
-     Proofs.VersionFacts Proofs.RangeSpec Proofs.RangeAlg Proofs.RangeOps Proofs.UnionHull Proofs.UnionExact Proofs.Contain Proofs.InterExact.
+     Proofs.VersionFacts Proofs.RangeSpec Proofs.RangeAlg Proofs.RangeOps Proofs.UnionHull Proofs.UnionExact Proofs.Contain Proofs.InterExact Proofs.AnyIff.
 From PC Require Import Gen.RangeCmp Proofs.GenAgreeRange.
 Import ListNotations.
 
 (* full statement, kept visible (unions included).  Proved: the allows_all half for every constraint shape (C12_allows_all_sound),
    self-containment for every shape; the allows_any half for every shape under the decidable hypothesis [sorted_c] (members of a
-   union sorted and apart, evaluated on every generated operand by the check).  Open: 'any iff intersection non-empty'. *)
+   union sorted and apart, evaluated on every generated operand by the check).  'any iff intersection non-empty' is proved for operands without a degenerate member, except a range against a union. *)
 Definition C12_full_statement : Prop :=
   forall a b v x y, allows a v = Ok x -> allows b v = Ok y ->
     forallb (regular1 v) (cbounds a ++ cbounds b) = true ->
@@ -92,3 +92,13 @@ Proof.
   split; [apply is_strictly_lower_agrees|]. split; [apply is_strictly_higher_agrees|apply is_adjacent_to_agrees].
 Qed.
 Print Assumptions C12_comparisons_of_current_source.
+
+(* Proved: 'allows any' is yes exactly when the intersection is not the empty constraint - about the two computations themselves,
+   no probe involved - when no member of either operand is degenerate ([nondeg_c]: the allowed maximum of a range is not
+   below its own minimum; decidable, evaluated at run time), for every shape except a range against a union (there allows_any
+   tests every member while intersect walks them in order; the two agree when the members are sorted, not proved). *)
+Theorem C12_any_iff_intersection : forall a b x i, nondeg_c a = true -> nondeg_c b = true ->
+  (match a, b with VOne (RR _ _ _ _), VUnion _ => False | _, _ => True end) ->
+  allows_any a b = Ok x -> intersect a b = Ok i -> x = negb (is_empty i).
+Proof. exact any_iff_intersection. Qed.
+Print Assumptions C12_any_iff_intersection.
